@@ -635,13 +635,11 @@ const isLastLit = "($1 == builtin:len($0.statements)-1)"
 func c01b(c *Ctx) {
 	fn := c.Fn("emitter.Emitter.emitScriptStatement")
 	split := c.Fn("emitter.chunk.splitChunkForBranch")
-	post := c.Fn("emitter.chunk.createPostLogicChunk")
-	last := c.Fn("emitter.chunk.isLastStatement")
-	if fn == nil || split == nil || post == nil || last == nil {
+	if fn == nil || split == nil {
 		return
 	}
-	// lemma 1: isLastStatement(c, i) == (i == len(c.statements)-1)
-	{
+	// lemma 1 (when the predicate is a function of its own): isLastStatement(c, i) == (i == len(c.statements)-1)
+	if last := c.W.Method("emitter", "chunk", "isLastStatement"); last != nil && len(last.Blocks) > 0 {
 		rets := returnsOf(last)
 		ok := len(rets) == 1 && c.term(last, rets[0].Results[0]) == eqTerm("$1", "builtin:len($0.statements)-1")
 		got := ""
@@ -650,33 +648,37 @@ func c01b(c *Ctx) {
 		}
 		c.Check(ok, "isLastStatement/definition", c.W.FuncPos(last), "isLastStatement(i) is i == len(statements)-1", "isLastStatement returns "+got+", expected index == len(statements)-1")
 	}
-	// lemma 2: createPostLogicChunk keeps statements[i+1:]
+	// lemmas 2 and 3: splitChunkForBranch makes — in place or through a constructor helper —
+	// exactly one post-logic chunk, holding statements[i+1:] and inheriting the return id,
+	// exactly when i is not the last statement
 	{
-		infos := c.chunkAllocs(post)
-		ok := len(infos) == 1 && infos[0].stmts == "$0.statements[$2+1:]" && infos[0].retID == "$0.returnID"
-		got := ""
-		if len(infos) == 1 {
-			got = "statements=" + infos[0].stmts + " returnID=" + infos[0].retID
+		type made struct {
+			at           ssa.Instruction // creation point in split
+			stmts, retID string
 		}
-		c.Check(ok, "createPostLogicChunk/suffix", c.W.FuncPos(post), "post-logic chunk holds statements[i+1:] and inherits the return id", "post-logic chunk built with "+got+", expected statements[i+1:] and the receiver's returnID")
-	}
-	// lemma 3: splitChunkForBranch creates the post-logic chunk exactly when i is not last
-	{
-		calls := callsToIn(split, post)
-		ok := len(calls) == 1
-		why := fmt.Sprintf("expected one call of createPostLogicChunk, found %d", len(calls))
-		if ok {
-			call := calls[0]
-			args := call.Common().Args
-			must := c.mustLits(split, call.Block())
-			ok = c.term(split, args[0]) == "$0" && c.term(split, args[2]) == "$1" && hasLit(must, "-"+isLastLit)
-			why = fmt.Sprintf("createPostLogicChunk(%s, _, %s) under %v; expected (receiver, _, index) exactly when !isLastStatement(index)", c.term(split, args[0]), c.term(split, args[2]), must)
-			// and on the other branch nothing is dropped: only when last
-			d := c.PC(split).canonOf(c.PC(split).At(call.Block()))
-			if ok && !dnfEquiv(d, mkDNF([]string{"-" + isLastLit})) {
-				ok = false
-				why = "post-logic chunk created under " + d.String() + ", expected exactly !isLastStatement(index)"
+		var ms []made
+		for _, ci := range c.chunkAllocs(split) {
+			ms = append(ms, made{ci.a, ci.stmts, ci.retID})
+		}
+		for _, cx := range callsIn(split) {
+			g := callee(cx)
+			if g == nil || !c.W.InRepo(g) || g == split {
+				continue
 			}
+			for _, ci := range c.chunkAllocs(g) {
+				ms = append(ms, made{cx.(ssa.Instruction), c.substParams(split, cx, ci.stmts), c.substParams(split, cx, ci.retID)})
+			}
+		}
+		ok := len(ms) == 1
+		why := fmt.Sprintf("expected one post-logic chunk to be made in splitChunkForBranch, found %d", len(ms))
+		if ok {
+			m := ms[0]
+			ok = m.stmts == "$0.statements[$1+1:]" && m.retID == "$0.returnID"
+			why = "post-logic chunk built with statements=" + pretty(m.stmts) + " returnID=" + pretty(m.retID) + ", expected statements[index+1:] and the receiver's returnID"
+			c.Check(ok, "createPostLogicChunk/suffix", c.W.Pos(m.at.Pos()), "post-logic chunk holds statements[i+1:] and inherits the return id", why)
+			d := c.PC(split).canonOf(c.PC(split).At(m.at.Block()))
+			ok = dnfEquiv(d, mkDNF([]string{"-" + isLastLit}))
+			why = "post-logic chunk created under " + d.String() + ", expected exactly when the index is not the last statement"
 		}
 		c.Check(ok, "splitChunkForBranch/splits-unless-last", c.W.FuncPos(split), "a post-logic chunk with the remaining statements is created unless the index is last", why)
 	}
